@@ -192,15 +192,54 @@ pub fn ops() -> &'static [Op] {
             Op { name: "write_payload(&[u8; 1][..])", effect: || app(big()[..1].to_vec()), apply: |b| b.write_payload(&big()[..1]) },
             Op { name: "write_tlv(5u8, &[u8; 65532])", effect: || app(enc::tlv(5, &big()[..65532]).unwrap()), apply: |b| b.write_tlv(5u8, &big()[..65532]) },
             Op { name: "write_tlv(5u8, &[u8; 65535])", effect: || app(enc::tlv(5, &big()[..65535]).unwrap()), apply: |b| b.write_tlv(5u8, &big()[..65535]) },
+            // 47..=48 TLV sections that are not a clean run of whole items, or that were already iterated
+            Op {
+                name: "write_payload(TypeLengthValues::from(&[4,0,1,42,1,0][..]))  (stray tail)",
+                effect: || app(vec![4, 0, 1, 42, 1, 0]),
+                apply: |b| b.write_payload(TypeLengthValues::from(&[4u8, 0, 1, 42, 1, 0][..])),
+            },
+            Op {
+                name: "write_payload({ let mut t = TypeLengthValues::from(&[4,0,1,42,1,0,0][..]); t.next(); t })  (already iterated)",
+                effect: || app(vec![4, 0, 1, 42, 1, 0, 0]),
+                apply: |b| {
+                    let mut t = TypeLengthValues::from(&[4u8, 0, 1, 42, 1, 0, 0][..]);
+                    let _ = t.next();
+                    b.write_payload(t)
+                },
+            },
+            // 49..=52 values of 255 bytes and more (two-byte lengths)
+            Op {
+                name: "write_payload((Type::SSLVersion, &[u8; 255][..]))",
+                effect: || app(enc::tlv(enc::PP2_SUBTYPE_SSL_VERSION, &big()[..255]).unwrap()),
+                apply: |b| b.write_payload((Type::SSLVersion, &big()[..255])),
+            },
+            Op {
+                name: "write_payload(TypeLengthValue::new(0x30u8, &[u8; 256]))",
+                effect: || app(enc::tlv(0x30, &big()[..256]).unwrap()),
+                apply: |b| b.write_payload(TypeLengthValue::new(0x30u8, &big()[..256])),
+            },
+            Op {
+                name: "write_tlv(Type::UniqueId, &[u8; 300])",
+                effect: || app(enc::tlv(enc::PP2_TYPE_UNIQUE_ID, &big()[..300]).unwrap()),
+                apply: |b| b.write_tlv(Type::UniqueId, &big()[..300]),
+            },
+            Op {
+                name: "write_payloads([(Type::CRC32C, &[u8; 256][..]), (Type::NoOp, &[u8; 255][..])])",
+                effect: || app([enc::tlv(enc::PP2_TYPE_CRC32C, &big()[..256]).unwrap(), enc::tlv(enc::PP2_TYPE_NOOP, &big()[..255]).unwrap()].concat()),
+                apply: |b| b.write_payloads([(Type::CRC32C, &big()[..256]), (Type::NoOp, &big()[..255])]),
+            },
         ]
     })
 }
 
-pub const MAIN_OPS: std::ops::Range<u8> = 0..41;
+/// the main alphabet: ops 0..=40 and 47..=52
+pub fn main_ops() -> Vec<u8> {
+    (0..41u8).chain(47..53u8).collect()
+}
 /// slices of 65535 / 65519 / 16 / 1 bytes, set_length(7), set_length(None), u8, big TLVs
 pub const BOUNDARY_OPS: [u8; 9] = [41, 42, 43, 44, 4, 6, 7, 45, 46];
 /// a small core alphabet for the deepest searches
-pub const CORE_OPS: [u8; 10] = [1, 3, 4, 6, 7, 8, 20, 23, 34, 36];
+pub const CORE_OPS: [u8; 12] = [1, 3, 4, 6, 7, 8, 20, 23, 34, 36, 19, 47];
 
 pub fn render(case: &[u8]) -> Value {
     if case.is_empty() {
@@ -428,11 +467,12 @@ pub fn search(run: &Run, spec: &SearchSpec, which: Which) -> (SearchStats, Acc) 
             break;
         }
         let last = depth == spec.depth;
-        let results: Vec<(Acc, Vec<((u64, u64), Vec<u8>)>, u64, u64)> = frontier
+        let results: Vec<(Acc, Vec<((u64, u64), Vec<u8>)>, u64, u64, Vec<(u64, u64)>)> = frontier
             .par_chunks(64)
             .map(|chunk| {
                 let mut acc = Acc::new(seed);
                 let mut next: Vec<((u64, u64), Vec<u8>)> = Vec::new();
+                let mut last_keys: Vec<(u64, u64)> = Vec::new();
                 let mut transitions = 0u64;
                 let mut terminal = 0u64;
                 for h in chunk {
@@ -447,27 +487,39 @@ pub fn search(run: &Run, spec: &SearchSpec, which: Which) -> (SearchStats, Acc) 
                         transitions += 1;
                         match out.key {
                             None => terminal += 1,
-                            Some(k) => next.push((k, if last { Vec::new() } else { nh })),
+                            Some(k) => {
+                                if last {
+                                    last_keys.push(k);
+                                } else {
+                                    next.push((k, nh));
+                                }
+                            }
                         }
                     }
                 }
-                (acc, next, transitions, terminal)
+                (acc, next, transitions, terminal, last_keys)
             })
             .collect();
         let mut new_frontier: Vec<Vec<u8>> = Vec::new();
         let mut new_states = 0u64;
-        for (acc, next, tr, te) in results {
+        let mut deepest: Vec<(u64, u64)> = Vec::new();
+        for (acc, next, tr, te, lk) in results {
             total = total.merge(acc);
             stats.transitions += tr;
             stats.terminal += te;
             for (k, h) in next {
                 if seen.insert(k) {
                     new_states += 1;
-                    if !last {
-                        new_frontier.push(h);
-                    }
+                    new_frontier.push(h);
                 }
             }
+            deepest.extend(lk.into_iter().filter(|k| !seen.contains(k)));
+        }
+        if last {
+            // the deepest layer is not expanded: its states are only counted (sort + dedup instead of a hash set)
+            deepest.par_sort_unstable();
+            deepest.dedup();
+            new_states += deepest.len() as u64;
         }
         stats.states += new_states + 0;
         stats.layers.push(new_states);
@@ -481,11 +533,11 @@ pub fn search(run: &Run, spec: &SearchSpec, which: Which) -> (SearchStats, Acc) 
 pub fn run_searches(run: &Run, which: Which) {
     let all_ctors: Vec<u8> = (0..ctors().len() as u8).collect();
     let (d_main, d_boundary, d_core) = match run.tier {
-        Tier::Quick => (3, 4, 5),
+        Tier::Quick => (3, 4, 6),
         Tier::Thorough => (4, 5, 7),
     };
     let specs = vec![
-        SearchSpec { name: "UB-main", ctors: all_ctors.clone(), ops: MAIN_OPS.collect(), depth: d_main },
+        SearchSpec { name: "UB-main", ctors: all_ctors.clone(), ops: main_ops(), depth: d_main },
         SearchSpec { name: "UB-boundary", ctors: vec![0, 4, 6], ops: BOUNDARY_OPS.to_vec(), depth: d_boundary },
         SearchSpec { name: "UB-core", ctors: vec![0, 4], ops: CORE_OPS.to_vec(), depth: d_core },
     ];
